@@ -26,7 +26,7 @@ from vf.oracle import raw as raw_of
 # ----------------------------------------------------------- definitions
 class Fn:
     """Definition of a Boolean function: evaluated on one assignment."""
-    __slots__ = ('op', 'args', 'depth', 'uid')
+    __slots__ = ('op', 'args', 'depth', 'uid', 'cost')
     _n = itertools.count()
 
     def __init__(self, op, *args):
@@ -35,6 +35,15 @@ class Fn:
         self.depth = 1 + max((a.depth for a in args if isinstance(a, Fn)),
                              default=0)
         self.uid = next(Fn._n)
+        # upper bound on the work of one evaluation (operations that
+        # change the assignment evaluate their operand afresh)
+        kids = [a for a in args if isinstance(a, Fn)]
+        c = 1 + sum(a.cost for a in kids)
+        if op in ('exists', 'forall'):
+            c = 1 + (2 ** len(args[1])) * args[0].cost
+        elif op == 'compose':
+            c = 1 + args[0].cost + sum(g.cost for g in args[1].values())
+        self.cost = c
 
     def ev(self, a, memo=None):
         """Value under assignment `a` (dict name -> bool)."""
@@ -98,6 +107,8 @@ class Fn:
         memo[k] = r
         return r
 
+
+COST_CAP = 20000
 
 BINOPS = {
     'and': 'and', '/\\': 'and', '&': 'and', '&&': 'and',
@@ -313,6 +324,11 @@ class BigWorld:
                 self.hold_limit:
             # judged, but too large to keep as an operand
             self.ctx.count('large_results_judged')
+            return
+        if fn.cost > COST_CAP:
+            # judged, but its definition is too expensive to evaluate
+            # again after every later step
+            self.ctx.count('costly_definitions_judged_once')
             return
         self.hold(h, fn)
 
